@@ -299,7 +299,7 @@ async fn stack_case(ctx: &Ctx, case: u64, acc: &mut Acc) {
     let mut granted: HashSet<Uid> = HashSet::new();
     if fresh.is_some() {
         let start = std::time::Instant::now();
-        while start.elapsed() < Duration::from_secs(20) && granted.len() < rooms.len() {
+        while start.elapsed() < Duration::from_secs(60) && granted.len() < rooms.len() {
             tokio::time::sleep(Duration::from_millis(25)).await;
             for e in hooks::events().iter().skip(before_fresh) {
                 if e.1 == "sync_begin" {
@@ -312,6 +312,19 @@ async fn stack_case(ctx: &Ctx, case: u64, acc: &mut Acc) {
         end(l).await;
     }
     drain(300, 10_000).await;
+    // every connection is gone: a synchronisation task that is still open can only be waiting for its own queries to
+    // fail (at most the library's 10 s query allowance) or for the processor. It is given 90 s, not a quiet period: on
+    // a loaded machine a quiet log says nothing
+    let deadline = std::time::Instant::now() + Duration::from_secs(90);
+    loop {
+        let ev = hooks::events();
+        let begun = ev.iter().filter(|e| e.1 == "sync_begin").count();
+        let ended = ev.iter().filter(|e| e.1 == "sync_end").count();
+        if begun == ended || std::time::Instant::now() > deadline {
+            break;
+        }
+        tokio::time::sleep(Duration::from_millis(50)).await;
+    }
 
     // ---- monitor over the event log
     let events = hooks::events();
@@ -372,7 +385,7 @@ async fn stack_case(ctx: &Ctx, case: u64, acc: &mut Acc) {
         acc.held(if begins >= 2 { Some(key) } else { None });
     } else if !violated {
         let missing: Vec<String> = rooms.iter().filter(|r| !granted.contains(*r)).map(|r| short(r)).collect();
-        acc.violation("C20/room-never-granted-again-after-connections-ended", witness(&format!("a fresh connection on a fresh circuit was not granted {:?} within 20 s although every earlier connection had ended", missing)));
+        acc.violation("C20/room-never-granted-again-after-connections-ended", witness(&format!("a fresh connection on a fresh circuit was not granted {:?} within 60 s although every earlier connection had ended", missing)));
     }
 }
 
